@@ -480,6 +480,14 @@ var scripts = [][]string{
 		"stake b 0 0 1000000000000", "stake b 1 1 1000000000000",
 		"newa 2 1 1 1048577 1000000000 0,1", "newa 2 1 1 1048577 1000000000 0,1",
 		"tick 2591999 1 1", "fin 0 c2", "tick 1 1 1", "fin 0 c1", "fin 0 c2", "cancel 1 c2", "cancel 1 c2", "rpl 2 1000000000", "rpu 2", "rpu 2"},
+	// extend-uneven: Props/C13 `extend_nonuniform_breaks_alloc`: sizes 524289 -> extend by 1 -> 524290; added blobber gets
+	// 524289; the next extend sets every size to 524290 but leaves the added blobber's Allocated at 524289; after the
+	// close its Allocated is -1
+	{"init fx-extend-uneven 1",
+		"addb 0 107374182400 1000000000 100000000 0 100", "addb 1 107374182400 1000000000 100000000 1 100",
+		"addb 2 107374182400 1000000000 100000000 2 100", "addb 3 107374182400 1000000000 100000000 2 100",
+		"stake b 0 0 1000000000000", "stake b 1 1 1000000000000", "stake b 2 1 1000000000000", "stake b 3 1 1000000000000",
+		"newa 3 2 1 1048577 100000000000 0,1,2", "upd 0 c3 0 1 1 - -", "upd 0 c3 0 0 0 3 -", "upd 0 c3 0 0 1 - -", "cancel 0 c3"},
 	// first write marker of a blobber at exactly the expiration second, another blobber holding challenge value:
 	// finalize fails for ever (0/0 in challengeRewardOnFinalization, models.go 617-631) — outside the four properties'
 	// texts; kept as a boundary case: the model takes the failure as observed
